@@ -21,7 +21,7 @@ ok = False
 try:
     demo = os.path.join(repo, "demo_seeded")
     shutil.copytree(os.path.join(src, "demo"), demo)
-    rc0, out0 = sh(["bash", os.path.join(demo, "run.sh")], cwd=repo, timeout=600)
+    rc0, out0 = sh(["bash", os.path.join(demo, "run.sh"), repo], cwd=repo, timeout=600)
     meta["ran"].append({"step": "demo on unchanged tree", "exit": rc0})
     a, aout = sh(["git", "apply", os.path.join(src, "patch.diff")], cwd=repo)
     meta["ran"].append({"step": "git apply patch.diff", "exit": a})
@@ -29,7 +29,7 @@ try:
     meta["ran"].append({"step": "go build ./pkg/... ./cmd/obitools/...", "exit": b})
     t, tout = sh([os.path.join(V, "bin", "baseline_check.py"), repo])
     meta["ran"].append({"step": "pinned test-suite (71 stable tests) with the change", "exit": t, "out": tout.strip().splitlines()[-1:]})
-    rc1, out1 = sh(["bash", os.path.join(demo, "run.sh")], cwd=repo, timeout=600)
+    rc1, out1 = sh(["bash", os.path.join(demo, "run.sh"), repo], cwd=repo, timeout=600)
     meta["ran"].append({"step": "demo with the change", "exit": rc1})
     ok = (rc0 == 0 and a == 0 and b == 0 and t == 0 and rc1 != 0)
     meta["confirmed"] = ok
